@@ -79,6 +79,50 @@ def where_cases():
     return out
 
 
+# ---- real-valued functions: name -> (domain predicate on k/4, mode)
+DEN = 4
+F_EXACT1 = {"sin": None, "cos": None, "tan": None, "arcsin": lambda x: -1 <= x <= 1, "arccos": lambda x: -1 <= x <= 1, "arctan": None, "sinh": None, "cosh": None, "tanh": None,
+            "arcsinh": None, "arccosh": lambda x: x >= 1, "arctanh": lambda x: -1 < x < 1, "exp": None, "exp2": None, "expm1": None, "log": lambda x: x > 0, "log2": lambda x: x > 0,
+            "log10": lambda x: x > 0, "log1p": lambda x: x > -1, "sqrt": lambda x: x >= 0, "cbrt": None, "ceil": None, "floor": None, "trunc": None, "rint": None, "fabs": None,
+            "reciprocal": lambda x: x != 0, "square": None, "negative": None, "positive": None, "isfinite": None, "isinf": None, "isnan": None, "signbit": None}
+F_APPROX1 = {"deg2rad": [], "radians": [], "rad2deg": [], "degrees": [], "relu": [], "relu6": [], "sigmoid": [], "silu": [], "log_sigmoid": [], "softsign": [], "tanhshrink": [], "mish": [],
+             "hardswish": [], "selu": [], "elu": [[], [0.5]], "celu": [[], [2.0]], "leaky_relu": [[], [0.25]], "prelu": [[], [0.5]], "hardshrink": [[], [1.0]], "softshrink": [[], [1.0]],
+             "hardtanh": [[], [-0.5, 1.5]], "softplus": [[], [2.0, 3.0]]}
+F_EXACT2 = {"arctan2": None, "hypot": None, "power": lambda x, y: x > 0, "fmod": lambda x, y: y != 0, "fmin": None, "fmax": None, "maximum": None, "minimum": None,
+            "add": None, "subtract": None, "multiply": None, "divide": lambda x, y: y != 0, "ldexp": None}
+
+
+def fufunc_cases(ck, tier):
+    r = ck.rng
+    out = []
+    def ks(n, dom, lo=-12, hi=28):
+        pool = [k for k in range(lo, hi + 1) if dom is None or dom(k / DEN)]
+        return [r.choice(pool) for _ in range(n)]
+    shapes1 = [[5], [2, 3], [2, 1, 2]] if tier == "quick" else [[5], [2, 3], [2, 1, 2], [3, 2, 2], [1, 7]]
+    for name, dom in F_EXACT1.items():
+        for dt in ("float", "double"):
+            for s in shapes1:
+                out.append(dict(op="fufunc", shapes=[s], data=[ks(prod(s), dom)], args=dict(name=name, mode="exact", dtype=dt, den=DEN)))
+    for name, plist in F_APPROX1.items():
+        for p_ in (plist or [[]]):
+            for s in shapes1:
+                c = dict(op="fufunc", shapes=[s], data=[ks(prod(s), None, -24, 24)], args=dict(name=name, mode="approx", dtype="double", den=DEN, tol=4))
+                if p_: c["args"]["p"] = p_
+                out.append(c)
+    pairs = REVEAL[:7] if tier == "quick" else REVEAL
+    for name, dom in F_EXACT2.items():
+        for dt in ("float", "double"):
+            for a, b in pairs:
+                for _ in range(40):     # draw operand values until every broadcast pair lies in the domain
+                    ka = ks(prod(a), None, -8, 12)
+                    kb = [r.randint(-3, 3) for _ in range(prod(b))] if name == "ldexp" else ks(prod(b), None, -8, 12)
+                    if dom is None or all(dom(x / DEN, y / DEN) for x in ka for y in kb): break
+                else:
+                    ka = [abs(k) + 1 for k in ka]; kb = [abs(k) + 1 for k in kb]
+                out.append(dict(op="fufunc", shapes=[a, b], data=[ka, kb], args=dict(name=name, mode="exact", dtype=dt, den=DEN)))
+    return out
+
+
 def seeded(ck, n):
     r = ck.rng
     out = []
@@ -105,6 +149,10 @@ def run(tier, seed):
     cases = opslib.number(tab + extra)
     drv = vlib.build_driver("drv_ufunc")
     opslib.run_ops(ck, drv, cases, want="valid", label="ufunc", describe=lambda c, k: f"ufunc {c['op']} {k}")
+    fc = opslib.number(fufunc_cases(ck, tier), start=len(cases))
+    opslib.run_ops(ck, vlib.build_driver("drv_fufunc"), fc, want="valid", label="fufunc", describe=lambda c, k: f"real-valued {c['args']['name']} ({c['args']['dtype']}, {c['args']['mode']}): {k}")
+    cases += fc
+    ck.extra["real_valued_functions"] = len(F_EXACT1) + len(F_APPROX1) + len(F_EXACT2)
     wc = opslib.number(where_cases(), start=len(cases))
     opslib.run_ops(ck, vlib.build_driver("drv_select"), wc, want="valid", label="where", describe=lambda c, k: f"where {k}")
     cases += wc
@@ -123,4 +171,5 @@ def run(tier, seed):
 
 
 def replay(rec):
-    return opslib.replay_ops(rec, "drv_select" if rec["case"].get("op") == "where" else "drv_ufunc")
+    op = rec["case"].get("op")
+    return opslib.replay_ops(rec, "drv_select" if op == "where" else ("drv_fufunc" if op == "fufunc" else "drv_ufunc"))
